@@ -878,7 +878,36 @@ def tail_setup(b):
     b.ref('snapshot_files', SNAPFILES)
     b.sym('note', Opt(STR))
     NOW = models.opaque_type('DateTime')
-    b.bind('datetime', Obj('datetime', utcnow=Model('utcnow', lambda i, s, a, k: iter([(s, sym.fresh(NOW, 'now'))]))))
+    b.NOW = NOW
+
+    AWARE = models.opaque_type('AwareDateTime')
+    UTC = Obj('<timezone.utc>')
+
+    def clock(kind):
+        def read(interp, st, args, kwargs):
+            tz = kwargs.get('tz', args[0] if args else None)
+            if (args or kwargs) and not (kind == 'now' and tz is UTC and len(args) + len(kwargs) == 1):
+                raise sym.Unsupported(f'datetime.{kind} with arguments')
+            v = sym.fresh(NOW, 'now')
+            if tz is UTC:
+                # datetime.now(timezone.utc): the UTC clock as an AWARE value (its str() carries '+00:00')
+                st.emit('clock_read', clock='utcnow', value=v)
+                yield st, SV(AWARE, UF('aware_of', NOW, AWARE)(v.z))
+                return
+            st.emit('clock_read', clock=kind, value=v)
+            yield st, v
+        return Model(kind, read)
+
+    def replace(interp, st, args, kwargs):
+        if len(args) == 1 and set(kwargs) == {'tzinfo'} and kwargs['tzinfo'] is None:
+            yield st, SV(NOW, UF('naive_of', AWARE, NOW)(args[0].z))
+        else:
+            raise sym.Unsupported('datetime.replace')
+
+    AWARE.attrs = {'replace': MethodModel('replace', replace)}
+    b.assume(z3.ForAll([z3.Const('t0', NOW.sort())], UF('naive_of', AWARE, NOW)(UF('aware_of', NOW, AWARE)(z3.Const('t0', NOW.sort()))) == z3.Const('t0', NOW.sort())))
+    b.bind('datetime', Obj('datetime', utcnow=clock('utcnow'), now=clock('now'), today=clock('today')))
+    b.bind('timezone', Obj('timezone', utc=UTC))
 
     def str_(interp, st, args, kwargs):
         (v,) = args
@@ -977,6 +1006,13 @@ def tail_post(prop):
                     z3.BoolVal(keys in (['files', 'utc_timestamp'], ['files', 'note', 'utc_timestamp'])),
                     z3.BoolVal(keys is not None and 'note' in keys) == z3.Not(note.ty.is_none(note.z)),
                     z3.BoolVal(bool(p.events('list_of_table')) and bool(p.events('list_of_values')))))
+                # the recorded time is the UTC clock read in this run (restore and the listings order snapshots by it; a local wall
+                # clock would reorder snapshots taken under different UTC offsets)
+                ck = p.events('clock_read')
+                ts = data.get('utc_timestamp') if isinstance(data, dict) else None
+                okc = len(ck) == 1 and ck[0].data['clock'] == 'utcnow' and ts is not None
+                res.oblige(pc, f'{prop}.tail.timestamp_is_the_utc_clock[{sig}]', z3.BoolVal(False) if not okc else
+                           sym.lift(ts, STR).z == UF('str_of_datetime', b.NOW, STR)(ck[0].data['value'].z))
             if p.kind == 'raise':
                 res.oblige(p, f'{prop}.tail.failure_uploads_nothing[{sig}]', z3.BoolVal(not ups))
         res.oblige([], f'{prop}.tail.upload_sites_checked', z3.BoolVal(n >= 1))
@@ -1041,3 +1077,199 @@ def run_post(prop):
 
 def run_unit(prop):
     return Unit(f'{prop}.snapshot_run', REPO_PY, 'Repository.snapshot', run_setup, run_post(prop), stmt=run_start, prop=prop)
+
+
+# ------------------------------------------------------------------ snapshot(): the order in which files enter the stream
+def head_start(stmt):
+    return True
+
+
+def head_end(stmt):
+    return isinstance(stmt, _ast.Assign) and isinstance(stmt.targets[0], _ast.Name) and stmt.targets[0].id == 'loop'
+
+
+FILES = models.opaque_type('FileList', pytype='list')
+FPATH = models.opaque_type('FilePath')
+
+
+def head_setup(b):
+    me = shared.repo_self(b, cache=False)
+    b.me = me
+    b.sym('paths', models.opaque_type('PathArgs'))
+    b.sym('note', Opt(STR))
+    b.sym('rate_limit', Opt(INT))
+    b.files = sym.const(FILES, 'files')
+
+    def flatten(interp, st, args, kwargs):
+        st.emit('flatten', arg=args[0] if args else None)
+        yield st, b.files
+
+    me._attrs['_flatten_resolve_paths'] = Model('_flatten_resolve_paths', flatten)
+
+    def stat(interp, st, args, kwargs):
+        yield st, Obj('stat_result', st_size=SV(INT, UF('size_of_file', FPATH, INT)(args[0].z)),
+                      st_mtime_ns=SV(INT, UF('mtime_of_file', FPATH, INT)(args[0].z)))
+
+    FPATH.attrs = {'stat': MethodModel('stat', stat)}
+
+    def str_(interp, st, args, kwargs):
+        (v,) = args
+        if isinstance(v, SV) and v.ty == FPATH:
+            yield st, SV(STR, UF('str_of_filepath', FPATH, STR)(v.z))
+        else:
+            yield from models.BUILTINS['str'].fn(interp, st, args, kwargs)
+
+    b.bind('str', Model('str', str_))
+    b.bind('len', Model('len', lambda i, s, a, k: iter([(s, sym.fresh(INT, 'n_files'))]) if isinstance(a[0], SV) and a[0].ty == FILES
+                        else models.BUILTINS['len'].fn(i, s, a, k)))
+
+    def sort(interp, st, args, kwargs):
+        key = kwargs.get('key')
+        f1, f2 = sym.fresh(FPATH, 'file1'), sym.fresh(FPATH, 'file2')
+        if key is None:
+            st.emit('sort', recv=args[0], keyed=False, reverse=kwargs.get('reverse', False), f1=f1, f2=f2, k1=None, k2=None)
+            yield st, None
+            return
+        for s1, k1 in interp.call(st, key, [f1], {}):
+            if isinstance(k1, Raised):
+                yield s1, k1
+                continue
+            for s2, k2 in interp.call(s1, key, [f2], {}):
+                if isinstance(k2, Raised):
+                    yield s2, k2
+                    continue
+                s2.emit('sort', recv=args[0], keyed=True, reverse=kwargs.get('reverse', False), f1=f1, f2=f2, k1=k1, k2=k2)
+                yield s2, None
+
+    FILES.attrs = {'sort': MethodModel('sort', sort)}
+
+    def sorted_(interp, st, args, kwargs):
+        if args and isinstance(args[0], SV) and args[0].ty == FILES:
+            for s2, r in sort(interp, st, args, kwargs):
+                yield s2, (r if isinstance(r, Raised) else args[0])
+        else:
+            yield from models.BUILTINS['sorted'].fn(interp, st, args, kwargs)
+
+    b.bind('sorted', Model('sorted', sorted_))
+
+
+def _keys_equal(k1, k2):
+    if isinstance(k1, tuple) and isinstance(k2, tuple):
+        if len(k1) != len(k2):
+            return z3.BoolVal(False)
+        return z3.And(*[_keys_equal(a, c) for a, c in zip(k1, k2)]) if k1 else z3.BoolVal(True)
+    a, c = sym.lift(k1), sym.lift(k2)
+    if a.ty != c.ty:
+        return z3.BoolVal(False)
+    return a.z == c.z
+
+
+def head_post(prop):
+    def post(res):
+        b = res.builder
+        n = 0
+        for p in res.paths:
+            if p.kind == 'raise':
+                continue
+            ev = p.events('sort')
+            fl = p.events('flatten')
+            ok = len(ev) == 1 and len(fl) == 1 and isinstance(ev[0].data['recv'], SV) and z3.eq(ev[0].data['recv'].z, b.files.z)
+            res.oblige(p, f'{prop}.head.files_of_the_arguments_are_ordered_once', z3.BoolVal(ok))
+            if not ok:
+                continue
+            n += 1
+            e = ev[0]
+            f1, f2 = e.data['f1'].z, e.data['f2'].z
+            strf = UF('str_of_filepath', FPATH, STR)
+            # the stream is the concatenation of the files in THIS order and chunks are cut from the stream: the order must be a function
+            # of the file set alone (a strict total order: no two distinct files compare equal), or the same unchanged data is cut into
+            # different chunks when the arguments / the directory scan deliver it in another order
+            if e.data['keyed']:
+                res.oblige(p.st.pc + [z3.Implies(strf(f1) == strf(f2), f1 == f2)], f'{prop}.head.stream_order_depends_on_the_file_set_only',
+                           z3.Implies(_keys_equal(e.data['k1'], e.data['k2']), f1 == f2))
+            else:
+                res.oblige(p, f'{prop}.head.stream_order_depends_on_the_file_set_only', z3.BoolVal(True))
+        res.oblige([], f'{prop}.head.sort_sites_checked', z3.BoolVal(n >= 1))
+    return post
+
+
+def head_unit(prop):
+    return Unit(f'{prop}.snapshot_head', REPO_PY, 'Repository.snapshot', head_setup, head_post(prop), stmt=(head_start, head_end), prop=prop)
+
+
+# ------------------------------------------------------------------ snapshot(): how the producer is started
+def pstart_start(stmt):
+    return isinstance(stmt, _ast.Assign) and isinstance(stmt.targets[0], _ast.Name) and stmt.targets[0].id == 'chunk_producer'
+
+
+def pstart_end(stmt):
+    return not pstart_start(stmt)
+
+
+def pstart_setup(b):
+    me = shared.repo_self(b, cache=False)
+    b.me = me
+    b.producer_fn = Obj('<_chunk_producer>')
+    b.bind('_chunk_producer', b.producer_fn)
+
+    def runs_of(args, kwargs):
+        out = set()
+        for a in list(args) + list(kwargs.values()):
+            if a is b.producer_fn:
+                out.add('producer')
+            out |= getattr(a, '_attrs', {}).get('_runs', set()) if isinstance(a, Obj) else set()
+        return out
+
+    def afut(name):
+        # an asyncio future / task: its completion is delivered as a callback ON THE LOOP THREAD
+        def m(interp, st, args, kwargs):
+            st.emit('asyncio_future', how=name)
+            yield st, Obj(f'<asyncio future via {name}>', _afut=True, _runs=runs_of(args, kwargs))
+        return Model(name, m)
+
+    def coro(name):
+        def m(interp, st, args, kwargs):
+            yield st, Obj(f'<coroutine {name}>', _runs=runs_of(args, kwargs))
+        return Model(name, m)
+
+    def cfut(name):
+        # a concurrent.futures future: done() flips in the worker thread
+        def m(interp, st, args, kwargs):
+            st.emit('thread_future', how=name)
+            yield st, Obj(f'<concurrent future via {name}>', _cfut=True, _runs=runs_of(args, kwargs))
+        return Model(name, m)
+
+    loop = Obj('<running loop>', run_in_executor=afut('loop.run_in_executor'), create_task=afut('loop.create_task'))
+    loop._lenient = True
+    b.bind('loop', loop)
+    b.executor = Obj('<chunk_producer_executor>', submit=cfut('executor.submit'))
+    b.executor._lenient = True
+    b.bind('chunk_producer_executor', b.executor)
+    asyncio_ = Obj('asyncio', get_running_loop=Model('get_running_loop', lambda i, s, a, k: iter([(s, loop)])),
+                   get_event_loop=Model('get_event_loop', lambda i, s, a, k: iter([(s, loop)])),
+                   wrap_future=afut('asyncio.wrap_future'), ensure_future=afut('asyncio.ensure_future'), create_task=afut('asyncio.create_task'),
+                   to_thread=coro('asyncio.to_thread'))
+    asyncio_._lenient = True
+    b.bind('asyncio', asyncio_)
+
+
+def pstart_post(prop):
+    def post(res):
+        from vf.interp import Unknown
+        b = res.builder
+        for p in res.paths:
+            v = p.st.lookup('chunk_producer') if p.st.has('chunk_producer') else None
+            if isinstance(v, Unknown):
+                raise sym.Unsupported('the producer handle comes from a call the sidecar has no model for')
+            attrs = getattr(v, '_attrs', {}) if isinstance(v, Obj) else {}
+            ok = p.kind in ('normal', 'return') and attrs.get('_afut') is True and 'producer' in attrs.get('_runs', set())
+            # the workers end when `chunk_queue.empty() and chunk_producer.done()`, two separate synchronous checks on the loop thread:
+            # sound only if done() flips ON THE LOOP THREAD (an asyncio future: completion arrives as a loop callback, after every put
+            # of the producer).  A concurrent.futures future flips in the producer thread, between the two checks: the last chunk is lost
+            res.oblige(p, f'{prop}.producer_start.completion_is_published_on_the_loop_thread', z3.BoolVal(bool(ok)),
+                       meta={'handle': getattr(v, '_name', repr(v))})
+    return post
+
+
+def producer_start_unit(prop):
+    return Unit(f'{prop}.snapshot_producer_start', REPO_PY, 'Repository.snapshot', pstart_setup, pstart_post(prop), stmt=(pstart_start, pstart_end), prop=prop)
